@@ -1,6 +1,7 @@
 _T = "static necessary-condition rules over the type-checked program (go/ssa): decides the structural clauses named in DESIGN §3 for this property on every path / for every writer / for every call site, not the runtime behaviour as a whole"
 CLAIMED = {
  "C01": ("all-paths exactly-once event analysis on SSA CFG + value-identity wiring check + constant folding of HasWork + who-may-write", _T, "DESIGN.md §3 C01"),
+ "C12": ("who-may-write on the reactor state table + edge-dominance (token arm / loaded / closed-check guards) + all-paths must-pass rules on SSA", _T, "DESIGN.md §3 C12"),
 }
 _P = "check not built yet in this round; planned rules in DESIGN.md §3 — not claimed until the rule runs"
 NOT_APPLICABLE = {f"C{i:02d}": _P for i in range(1, 20)}
